@@ -325,7 +325,9 @@ def search(ctx, deep=False):
                 report("isometrize:wrong-point", "isometrize of a lat-lon model differs from R*(cos lat cos lon, cos lat sin lon, sin lat)", case)
             back = m.anisometrize(iso)
             ev += 1
-            if not np.allclose(G.latlon2pos(back, R), iso, rtol=0, atol=1e-12 * R):
+            # arcsin(z/R) loses half of the digits next to the poles: condition-aware bound eps/cos(lat), capped at sqrt(eps)
+            tol3 = R * np.minimum(1e-12 + 1e-15 / np.maximum(np.cos(np.radians(lat)), 1e-300), 1e-7)
+            if not np.all(np.abs(G.latlon2pos(back, R) - iso) <= tol3[None, :]):
                 report("roundtrip:3d", "latlon -> 3-D -> latlon -> 3-D does not return the same point", case)
             inside = (np.abs(lat) < 89.9)
             dlon = (back[1] - lon + 180.0) % 360.0 - 180.0    # longitude difference modulo 360
